@@ -143,11 +143,12 @@ Qed.
 Lemma sixteen_length l : length (sixteen l) = 16%nat.
 Proof. unfold sixteen. rewrite firstn_length, app_length, repeat_length. lia. Qed.
 
-Lemma aes_data_rt key iv s : aes_ok P -> aes_data_decrypt I key (aes_data_encrypt I key iv s) = Some s.
+Lemma aes_data_rt key iv s : aes_ok P -> (length key = 16 \/ length key = 32)%nat ->
+  aes_data_decrypt I key (aes_data_encrypt I key iv s) = Some s.
 Proof.
-  intro HA. unfold aes_data_encrypt, aes_data_decrypt. cbv zeta.
-  assert (He : forall b, length b = 16%nat -> length (p_aes_enc P key b) = 16%nat) by (intros b Hb; apply HA; exact Hb).
-  assert (Hd : forall b, length b = 16%nat -> p_aes_dec P key (p_aes_enc P key b) = b) by (intros b Hb; apply HA; exact Hb).
+  intros HA Hkey. unfold aes_data_encrypt, aes_data_decrypt. cbv zeta.
+  assert (He : forall b, length b = 16%nat -> length (p_aes_enc P key b) = 16%nat) by (intros b Hb; apply (HA key Hkey); exact Hb).
+  assert (Hd : forall b, length b = 16%nat -> p_aes_dec P key (p_aes_enc P key b) = b) by (intros b Hb; apply (HA key Hkey); exact Hb).
   destruct (pad_length s) as [q Hq]. rewrite Hq.
   replace (16 * S q / 16)%nat with (S q) by (rewrite Nat.mul_comm, Nat.div_mul; lia).
   cbn [i_AES_E i_AES_D I iprims_of].
@@ -176,14 +177,14 @@ Proof.
 Qed.
 
 (* the standard's own round trip (needed for the direction lopdf -> standard) *)
-Theorem iso_data_rt m fek id iv s : aes_ok P ->
+Theorem iso_data_rt m fek id iv s : aes_ok P -> method_ok m fek ->
   data_decrypt I m fek id (data_encrypt I m fek id iv s) = Some s.
 Proof.
-  intro HA. destruct m; cbn [data_encrypt data_decrypt].
+  intros HA Hok. destruct m; cbn [data_encrypt data_decrypt method_ok] in *.
   - reflexivity.
   - cbn [i_RC4 I iprims_of]. rewrite rc4_total_involutive. reflexivity.
-  - apply aes_data_rt. exact HA.
-  - apply aes_data_rt. exact HA.
+  - apply aes_data_rt; [exact HA|]. left. rewrite alg1_key_length. lia.
+  - apply aes_data_rt; [exact HA|]. right. exact Hok.
 Qed.
 
 (* written by lopdf, decrypted by the standard's rules *)
@@ -193,7 +194,7 @@ Theorem lopdf_data_iso_decrypt m fek id s ivs ct ivs' : aes_ok P -> method_ok m 
 Proof.
   intros HA Hok H1 H. rewrite (data_encrypt_refines m fek id s ivs Hok H1) in H.
   injection H as H. apply (f_equal fst) in H. cbn [fst] in H. subst ct. unfold iso_enc_step.
-  destruct (uses_iv m); [destruct (next_iv ivs)|]; cbn [fst]; apply iso_data_rt; exact HA.
+  destruct (uses_iv m); [destruct (next_iv ivs)|]; cbn [fst]; apply iso_data_rt; assumption.
 Qed.
 
 End Data.
